@@ -2,6 +2,8 @@ import QclibModel.Proofs.Placement
 import QclibModel.Proofs.Inverse
 import QclibModel.Proofs.Widths
 import QclibModel.Proofs.RotReal
+import QclibModel.Proofs.PyLemmas
+import QclibModel.Gen.Widths
 /-
   C15 — gates compose: arbitrary placement, inverse, declared width.
   Property theorems only; proofs live in Proofs/Placement.lean, Proofs/Inverse.lean,
@@ -119,6 +121,60 @@ example : denote (G.cx 0 0 : G ℝ) (fun b => if b 0 then (1 : ℂ) else 0)
   funext b
   simp only [denote, applyMcu, ctrlOk, List.all_cons, List.all_nil, Mat2.X, setBit_eq]
   by_cases h : b 0 = true <;> simp [h]
+
+/-- The translation of `int(np.ceil(np.log2(m)))` is the width table's `clog2` (for `m ≥ 1`). -/
+theorem pyLog2Ceil_widths (m : Nat) (hm : 1 ≤ m) :
+    Py.pyLog2Ceil (m : Int) = ((Widths.clog2 m : Nat) : Int) := by
+  apply Py.pyLog2Ceil_eq_of_least m _ hm
+  · have := Nat.lt_log2_self (n := 2 * m - 1)
+    unfold Widths.clog2
+    rw [Nat.pow_succ] at this
+    omega
+  · intro b hb; exact Widths.clog2_le hb
+
+/-- **C15 (source tie, declared widths).**  For six classes whose constructor computes its width
+itself, the expression handed to `super().__init__` (second argument), together with every
+statement of `__init__` that feeds it, is re-translated on every run from the current source
+(`Gen/Widths.lean`; `self.num_qubits` after `_get_num_qubits`, `len(params)`, `opt_params is None`
+and `opt_params.get(...)` are the parameters).  For every key length `n ≥ 1`, number of entries
+`m ≥ 1`, control count `k`, target count `t` and every way of passing (or not passing) the option, the
+generated definitions equal the rows of `declaredWidth` that `C15_width` speaks about:
+CvoqramInitialize (`with_aux` defaulting to `True`), FnPointsInitialize, PivotInitialize (`aux`
+defaulting to `False`), McxVchainDirty, LinearMcx, MultiTargetMCSU2.  An edit of a constant, a
+comparison, a default or the rounding in one of these constructors breaks this proof. -/
+theorem C15_width_src (n m k t : Nat) (hn : 1 ≤ n) (hm : 1 ≤ m) (optNone : Bool) (o : Option Bool) :
+    Gen.Widths.cvoqram_width (n : Int) optNone o
+        = ((Widths.declaredWidth .cvoqram { n := n, aux := (if optNone then none else o).getD true } : Nat) : Int)
+    ∧ Gen.Widths.fnpoints_width (n : Int) = ((Widths.declaredWidth .fnPoints { n := n } : Nat) : Int)
+    ∧ Gen.Widths.pivot_width (n : Int) (m : Int) optNone o
+        = ((Widths.declaredWidth .pivot { n := n, m := m, aux := (if optNone then none else o).getD false } : Nat) : Int)
+    ∧ Gen.Widths.mcx_vchain_dirty_width (k : Int) (t : Int)
+        = ((Widths.declaredWidth .mcxVchainDirty { k := k, t := t } : Nat) : Int)
+    ∧ Gen.Widths.linear_mcx_width (k : Int) = ((Widths.declaredWidth .linearMcx { k := k } : Nat) : Int)
+    ∧ Gen.Widths.multi_target_mcsu2_width (k : Int) (t : Int)
+        = ((Widths.declaredWidth .multiTargetMCSU2 { k := k, t := t } : Nat) : Int) := by
+  refine ⟨?_, ?_, ?_, ?_, ?_, ?_⟩
+  · unfold Gen.Widths.cvoqram_width Widths.declaredWidth
+    cases optNone <;> cases o <;> simp
+    all_goals (try split)
+    all_goals omega
+  · unfold Gen.Widths.fnpoints_width Widths.declaredWidth; simp
+  · unfold Gen.Widths.pivot_width Widths.declaredWidth
+    simp only [pyLog2Ceil_widths m hm]
+    cases optNone <;> cases o <;> simp
+    all_goals (try split)
+    all_goals omega
+  · unfold Gen.Widths.mcx_vchain_dirty_width Widths.declaredWidth Widths.vchainAncillas
+    simp only []
+    split <;> split <;> omega
+  · unfold Gen.Widths.linear_mcx_width Widths.declaredWidth; simp
+  · unfold Gen.Widths.multi_target_mcsu2_width Widths.declaredWidth; simp
+
+/-- Non-vacuity: n = 3, m = 5, k = 4, t = 2. -/
+example : Gen.Widths.cvoqram_width 3 true none = 6 ∧ Gen.Widths.cvoqram_width 3 false (some false) = 4
+    ∧ Gen.Widths.fnpoints_width 3 = 7 ∧ Gen.Widths.pivot_width 3 5 false (some true) = 5
+    ∧ Gen.Widths.pivot_width 3 5 true none = 3 ∧ Gen.Widths.mcx_vchain_dirty_width 4 2 = 8
+    ∧ Gen.Widths.linear_mcx_width 4 = 6 ∧ Gen.Widths.multi_target_mcsu2_width 4 2 = 6 := by decide
 
 /-- **C15 (declared width = circuit width).**  For every initializer / gate class of the library and
 every parameter in the class's domain (`InDomain`: `2^n` amplitudes with `n ≥ 1`; Bdsp split
